@@ -69,7 +69,7 @@ type Gen struct {
 	AtRunning []Act `json:"at_running,omitempty"`
 	AtShut    []Act `json:"at_shut,omitempty"`
 	// FatalSync: pipeline component FatalComp reports a FatalError status synchronously from inside its own
-	// "start" / "shutdown" (listed non-terminating shape; only run in a child process).
+	// "start" / "shutdown" / "both" (Run's goroutine is the reporter).
 	FatalSync string `json:"fatal_sync,omitempty"`
 	FatalComp int    `json:"fatal_comp,omitempty"`
 }
@@ -80,33 +80,6 @@ type Script struct {
 	Gens  []Gen `json:"gens"`
 	Final Act   `json:"final"`          // stop event used when the run is quiescent (Running, nothing pending) and alive
 	Post  int   `json:"post,omitempty"` // Shutdown() calls after Run returned
-}
-
-// risk names the listed non-terminating shape a script contains ("" = none):
-// a FatalError status reported while Run is not sitting in its select loop.
-func (s *Script) risk() string {
-	for i := range s.Gens {
-		g := &s.Gens[i]
-		if g.FatalSync != "" {
-			return "fatal-sync-in-" + g.FatalSync
-		}
-		for _, a := range g.AtStart {
-			if a.K == "fatal" {
-				return "fatal-async-while-in-start"
-			}
-		}
-		for _, a := range g.AtShut {
-			if a.K == "fatal" {
-				return "fatal-async-while-in-shutdown"
-			}
-		}
-		for _, a := range g.AtRunning {
-			if a.K == "fatal" && len(g.AtRunning) > 1 {
-				return "fatal-async-together-with-other-events"
-			}
-		}
-	}
-	return ""
 }
 
 // ---------------------------------------------------------------------------
@@ -141,7 +114,7 @@ func genAct(t *rapid.T, label string, kinds []string) Act {
 	case "shutdown":
 		a.N = 1 + uni(t, label+"-n", 4)
 	case "fatal":
-		a.N = uni(t, label+"-c", 5)
+		a.N = uni(t, label+"-c", 6) - 1 // -1: the component the driver is paused in (any started one elsewhere)
 	case "burst":
 		n := 2 + uni(t, label+"-blen", 3)
 		for i := 0; i < n; i++ {
@@ -153,9 +126,9 @@ func genAct(t *rapid.T, label string, kinds []string) Act {
 
 var (
 	// weights by repetition
-	runningKinds = []string{"change", "change", "change", "sighup", "sighup", "watcherr", "sigint", "sigterm", "shutdown", "shutdown", "cancel", "burst"}
-	pauseKinds   = []string{"change", "sighup", "watcherr", "sigint", "sigterm", "shutdown", "shutdown", "shutdown", "cancel", "burst", "burst"}
-	noSigKinds   = []string{"change", "watcherr", "shutdown", "shutdown", "cancel", "burst"}
+	runningKinds = []string{"change", "change", "change", "sighup", "sighup", "watcherr", "sigint", "sigterm", "shutdown", "shutdown", "cancel", "burst", "fatal"}
+	pauseKinds   = []string{"change", "sighup", "watcherr", "sigint", "sigterm", "shutdown", "shutdown", "shutdown", "cancel", "burst", "burst", "fatal", "fatal"}
+	noSigKinds   = []string{"change", "watcherr", "shutdown", "shutdown", "cancel", "burst", "fatal"}
 	finalKinds   = []string{"shutdown", "shutdown", "sigint", "sigterm", "cancel", "watcherr", "fatal"}
 )
 
@@ -204,7 +177,7 @@ func genGen(t *rapid.T, i, total int) Gen {
 			g.AtRunning[0], g.AtRunning[len(g.AtRunning)-1] = g.AtRunning[len(g.AtRunning)-1], g.AtRunning[0]
 		}
 	} else if pct(t, lb("fatal"), 12) {
-		// an asynchronous component error, alone (anything else at the same moment is the listed hang shape)
+		// an asynchronous component error, alone
 		g.AtRunning = []Act{{K: "fatal", N: uni(t, lb("fatal-c"), 5)}}
 	} else {
 		g.AtRunning = genActs(t, lb("at-running"), runningKinds, 3)
@@ -213,12 +186,14 @@ func genGen(t *rapid.T, i, total int) Gen {
 		g.PauseShut = uni(t, lb("pause-shut"), 6)
 		g.AtShut = genActs(t, lb("at-shut"), pauseKinds, 2)
 	}
+	if pct(t, lb("fs"), 8) {
+		g.FatalSync = oneOf(t, lb("fatal-sync"), []string{"start", "shutdown", "shutdown", "both"})
+		g.FatalComp = uni(t, lb("fatal-comp"), 5)
+	}
 	return g
 }
 
-// gen draws the main-pass script.  With a small probability it plants one of the
-// listed non-terminating shapes; run() counts those as excluded by construction
-// (they are exercised by the probe check in a child process).
+// gen draws the main-pass script.
 func gen(t *rapid.T) Script {
 	var s Script
 	n := 1 + uni(t, "gens", 4)
@@ -230,32 +205,7 @@ func gen(t *rapid.T) Script {
 	}
 	s.Final = genAct(t, "final", finalKinds)
 	s.Post = uni(t, "post", 4)
-	if pct(t, "risky", 3) {
-		plantRisk(t, &s)
-	}
 	return s
-}
-
-// plantRisk turns s into a script with a FatalError report outside Run's select loop.
-func plantRisk(t *rapid.T, s *Script) {
-	i := uni(t, "risk-gen", len(s.Gens))
-	g := &s.Gens[i]
-	switch uni(t, "risk-kind", 4) {
-	case 0:
-		g.FatalSync, g.FatalComp = "start", uni(t, "risk-comp", 5)
-	case 1:
-		g.FatalSync, g.FatalComp = "shutdown", uni(t, "risk-comp", 5)
-	case 2:
-		if g.PauseStart < 0 {
-			g.PauseStart = uni(t, "risk-pause", 6)
-		}
-		g.AtStart = append(g.AtStart, Act{K: "fatal", N: -1})
-	default:
-		if g.PauseShut < 0 {
-			g.PauseShut = uni(t, "risk-pause", 6)
-		}
-		g.AtShut = append(g.AtShut, Act{K: "fatal", N: -1})
-	}
 }
 
 // ---------------------------------------------------------------------------
@@ -290,7 +240,7 @@ type driver struct {
 	sentInt      bool
 	sentTerm     bool
 	cancelled    bool
-	fatalFired   bool
+	fatalReports int
 	watchErrd    bool
 	resend       []syscall.Signal
 	nextResend   time.Time
@@ -312,6 +262,15 @@ type driver struct {
 func (d *driver) note(f *vt.Finding) {
 	if d.finding == nil && f != nil {
 		d.finding = f
+	}
+}
+
+// foldSyncFatal: a component reported FatalError from inside its own Start/Shutdown (on Run's goroutine): a stop
+// reason has been delivered.
+func (d *driver) foldSyncFatal() {
+	if d.w.syncFatal.Load() > 0 && d.stop != stopSure {
+		d.stop = stopSure
+		d.stopKinds["fatal"] = true
 	}
 }
 
@@ -380,7 +339,6 @@ func (d *driver) fire(where string, gen int, acts []Act, paused bool, self strin
 	// stable: the collector cannot be inside (or enter) a reload's Closing window while we are here, so a
 	// Shutdown() issued now while the state reads Starting/Running is bound to stop the run.
 	stable := paused || (d.pending() <= 0 && !d.lossy)
-	risky := d.s.risk() != ""
 	for _, a := range ordered {
 		tag := fmt.Sprintf("%s:g%d:%s", where, gen, a.K)
 		switch a.K {
@@ -541,17 +499,21 @@ func (d *driver) fire(where string, gen int, acts []Act, paused bool, self strin
 			d.stopKinds["cancel"] = true
 			stable = paused
 		case "fatal":
-			if !risky && (d.stop != stopNone || d.lossy || paused || len(ordered) != 1 || d.pending() > 0) {
-				d.c.Class("skipped:fatal-not-alone")
-				continue
-			}
-			if d.fatalFired {
+			// A started pipeline component reports FatalError from its own goroutine.  From the moment the report is
+			// made it is a stop reason - wherever Run's goroutine is.  It is only made while Run is provably alive
+			// (held at a pause point, or no stop issued yet): after Run returned nobody reads the channel any more.
+			if !paused && d.stop != stopNone {
+				d.c.Class("skipped:fatal-while-run-may-be-returning")
 				continue
 			}
 			g := d.s.gen(gen)
 			id := self
-			if a.N >= 0 || id == "" {
-				id = pick(g.pipeComps(), a.N)
+			if a.N >= 0 || id == "" || d.w.host(gen, id) == nil {
+				n := a.N
+				if n < 0 {
+					n = 0
+				}
+				id = pick(g.pipeComps(), n)
 			}
 			h := d.w.host(gen, id)
 			if h == nil { // not started yet: take any started pipeline component of this generation
@@ -566,19 +528,31 @@ func (d *driver) fire(where string, gen int, acts []Act, paused bool, self strin
 				d.c.Class("skipped:fatal-no-started-component")
 				continue
 			}
-			d.fatalFired = true
-			d.stop = stopSure
-			d.stopKinds["fatal"] = true
+			d.fatalReports++
 			d.w.add(gen, id, "h:"+tag, false)
-			reported := make(chan struct{})
+			returned := make(chan struct{})
 			go func() {
-				close(reported)
+				defer close(returned)
 				componentstatus.ReportStatus(h, componentstatus.NewFatalErrorEvent(errors.New(token("fatal", gen, id))))
 			}()
-			<-reported
-			if risky {
-				// let the reporter reach its blocking point before the component callback returns
-				time.Sleep(20 * time.Millisecond)
+			// The report must not block.  Wait for it (bounded: if it does block, the run is about to hang and the
+			// watchdog reports that) so that the component's status at report time is known.
+			effective := false
+			select {
+			case <-returned:
+				// taken by the status state machine unless the component had failed Start or was already Stopped
+				effective = d.w.reportCounts(gen, id)
+			case <-time.After(3 * time.Second):
+				d.c.Class("fatal-report-call-did-not-return-within-3s")
+			}
+			if effective {
+				d.stop = stopSure
+				d.stopKinds["fatal"] = true
+			} else {
+				if d.stop < stopMaybe {
+					d.stop = stopMaybe
+				}
+				d.stopKinds["fatal?"] = true
 			}
 			stable = paused
 		}
@@ -586,16 +560,16 @@ func (d *driver) fire(where string, gen int, acts []Act, paused bool, self strin
 	}
 }
 
-// restrict drops the act kinds that are only safe while no stop is in flight.
-func (d *driver) safeOnly(acts []Act) []Act {
-	risky := d.s.risk() != "" // probe scripts (child process only): the fatal report is the point
+// safeOnly drops the act kinds that are only safe while no stop is in flight.  A fatal report is kept at pause
+// points (Run is held there, hence alive to read it).
+func (d *driver) safeOnly(acts []Act, paused bool) []Act {
 	var out []Act
 	for _, a := range acts {
 		switch a.K {
 		case "shutdown", "cancel", "sigint", "sigterm", "sighup":
 			out = append(out, a)
 		case "fatal":
-			if risky {
+			if paused {
 				out = append(out, a)
 			}
 		}
@@ -644,6 +618,7 @@ func (d *driver) drive(limit time.Duration) (finished bool, stuck string) {
 	for {
 		select {
 		case r := <-done:
+			d.foldSyncFatal()
 			d.res, d.returned, d.stopAtReturn = r, true, d.stop
 			d.w.add(d.w.numRetrieves()-1, "", "h:run-returned", r.err != nil)
 			return true, ""
@@ -653,8 +628,9 @@ func (d *driver) drive(limit time.Duration) (finished bool, stuck string) {
 			if p.phase == "shutdown" {
 				acts = g.AtShut
 			}
+			d.foldSyncFatal()
 			if d.stop != stopNone || d.w.numProvShutdown() > 0 || d.lossy {
-				acts = d.safeOnly(acts)
+				acts = d.safeOnly(acts, true)
 			}
 			d.w.add(p.gen, p.id, "h:paused-in-"+p.phase, false)
 			d.fire("in-"+p.phase, p.gen, acts, true, p.id)
@@ -663,6 +639,7 @@ func (d *driver) drive(limit time.Duration) (finished bool, stuck string) {
 			return false, fmt.Sprintf("state %v, stop fired %v (%d), pending triggers %d, fired %v%s", d.col.GetState(), d.stopKinds, d.stop, d.pending(), d.fired, fmtLog(d.w.snapshot(), -1))
 		case <-tick.C:
 			now := time.Now()
+			d.foldSyncFatal()
 			// GetState() sample: a known state, and Closed is final
 			if st := d.col.GetState(); st < otelcol.StateStarting || st > otelcol.StateClosed {
 				d.note(vt.Failf("state/unknown-value", "GetState() returned %d", int(st)))
@@ -701,7 +678,7 @@ func (d *driver) drive(limit time.Duration) (finished bool, stuck string) {
 				d.firedRunning[gen] = true
 				acts := d.s.gen(gen).AtRunning
 				if d.stop != stopNone || d.lossy {
-					acts = d.safeOnly(acts)
+					acts = d.safeOnly(acts, false)
 				}
 				d.w.add(gen, "", "h:observed-running", false)
 				d.fire("running", gen, acts, false, "")
@@ -709,7 +686,7 @@ func (d *driver) drive(limit time.Duration) (finished bool, stuck string) {
 				d.finalFired = true
 				a := d.s.Final
 				if d.stop != stopNone || d.lossy {
-					if sa := d.safeOnly([]Act{a}); len(sa) == 0 || a.K == "sighup" {
+					if sa := d.safeOnly([]Act{a}, false); len(sa) == 0 || a.K == "sighup" {
 						a = Act{K: "shutdown", N: 1}
 					}
 				}
@@ -980,13 +957,15 @@ func keys(m map[string]bool) []string {
 
 var cRun = vt.New("C20", "run-loop")
 
-const knownHangSig = "hang/fatal-error-reported-outside-run-loop"
+// fatalHangSig: the (repaired) defect of the pinned tree - a FatalError report blocking in the send to the
+// collector's async-error channel because Run was not in its select loop.
+const fatalHangSig = "hang/fatal-error-reported-outside-run-loop"
 
 // hangSig attributes a stuck run by what the goroutine dump shows.
 func hangSig(stacks string) string {
 	for _, gr := range strings.Split(stacks, "\n\n") {
 		if strings.Contains(gr, "chan send") && strings.Contains(gr, "NotifyComponentStatusChange") {
-			return knownHangSig
+			return fatalHangSig
 		}
 	}
 	return "hang/run-does-not-return"
@@ -1044,6 +1023,50 @@ func classify(c *vt.C, d *driver) {
 			c.Class("together:reload-trigger+stop")
 		}
 	}
+	// where FatalError reports were made (the placements that used to hang before the repair)
+	provDown := false
+	prevOp := map[string]string{}
+	for _, e := range ev {
+		switch {
+		case e.Op == "prov-shutdown":
+			provDown = true
+		case e.Op == "start" || e.Op == "shutdown":
+			prevOp[fmt.Sprintf("%d/%s", e.Gen, e.Comp)] = e.Op
+		case e.Op == "fatal-sync":
+			switch {
+			case prevOp[fmt.Sprintf("%d/%s", e.Gen, e.Comp)] == "start" && e.Gen == 0:
+				c.Class("fatal-sync:in-start(initial)")
+			case prevOp[fmt.Sprintf("%d/%s", e.Gen, e.Comp)] == "start":
+				c.Class("fatal-sync:in-start(after-reload)")
+			case provDown:
+				c.Class("fatal-sync:in-shutdown(final-shutdown)")
+			case e.State == "Closing":
+				c.Class("fatal-sync:in-shutdown(retired-by-reload)")
+			default:
+				c.Class("fatal-sync:in-shutdown(teardown-after-failed-start)")
+			}
+		case strings.HasPrefix(e.Op, "h:in-start:") && strings.HasSuffix(e.Op, ":fatal"):
+			if e.Gen == 0 {
+				c.Class("fatal-async:while-in-start(initial)")
+			} else {
+				c.Class("fatal-async:while-in-start(after-reload)")
+			}
+		case strings.HasPrefix(e.Op, "h:in-shutdown:") && strings.HasSuffix(e.Op, ":fatal"):
+			switch {
+			case provDown:
+				c.Class("fatal-async:while-in-shutdown(final-shutdown)")
+			case e.State == "Closing":
+				c.Class("fatal-async:while-in-shutdown(retired-by-reload)")
+			default:
+				c.Class("fatal-async:while-in-shutdown(teardown-after-failed-start)")
+			}
+		case strings.HasPrefix(e.Op, "h:running:") && strings.HasSuffix(e.Op, ":fatal"):
+			c.Class("fatal-async:while-running")
+		}
+	}
+	if n := d.fatalReports + int(d.w.syncFatal.Load()); n > 1 {
+		c.Class("fatal:several-reports-in-one-run")
+	}
 	if d.lossy && !d.inexactBurst {
 		c.Class("lossy:signal-resent")
 	}
@@ -1073,10 +1096,6 @@ func run(c *vt.C) func(Script) (bool, string, *vt.Finding) {
 		if len(s.Gens) == 0 {
 			return false, key, nil
 		}
-		if r := s.risk(); r != "" && !vt.IsChild() {
-			c.Exclude(r)
-			return false, key, nil
-		}
 		w := newWorld(&s)
 		col, err := w.newCollector()
 		if err != nil {
@@ -1084,9 +1103,6 @@ func run(c *vt.C) func(Script) (bool, string, *vt.Finding) {
 		}
 		d := &driver{c: c, w: w, s: &s, col: col, firedRunning: map[int]bool{}, stopKinds: map[string]bool{}}
 		limit := inProcessLimit
-		if vt.IsChild() {
-			limit = 5 * time.Second
-		}
 		var finished bool
 		var stuck string
 		ok, stacks := vt.WithWatchdog(limit+10*time.Second, func() { finished, stuck = d.drive(limit) })
@@ -1099,16 +1115,11 @@ func run(c *vt.C) func(Script) (bool, string, *vt.Finding) {
 				stuck = "the driver itself is stuck" + fmtLog(w.snapshot(), -1)
 			}
 			msg := fmt.Sprintf("Collector.Run did not return within %v: %s", limit, stuck)
-			if vt.IsChild() {
-				// the parent reads the signature from the fail file
-				close(w.abandoned)
-				return true, key, vt.Failf(sig, "%s", msg)
-			}
 			// a hung Run cannot be stopped: record, dump, leave (what vt.HangGuard does, with our own message)
 			hf := vt.Failf(sig, "%s", msg)
 			if c.IsKnown(sig) {
 				c.Report(hf, s)
-				c.Inconclusive("listed non-terminating shape %s reached the in-process pass (should be excluded by construction)", sig)
+				c.Inconclusive("listed non-terminating shape %s: the process is lost", sig)
 			} else {
 				c.Violation(hf, s)
 			}
